@@ -204,11 +204,11 @@ def r033_generated(ctx):
     if okf:
         c = mfc[0]
         sp, disp = kw(c, "sample_params"), kw(c, "metrics")
-        okf = root_of(sp) is root_of(A2.at(c, roles["sample"])) and kw(c, "y_true") is Pc["y_true"] and kw(c, "y_pred") is Pc["y_pred"] \
+        okf = sp is A2.at(c, roles["sample"]) and kw(c, "y_true") is Pc["y_true"] and kw(c, "y_pred") is Pc["y_pred"] \
             and kw(c, "sensitive_features") is Pc["sensitive_features"]
         part = root_of(disp)
         okf = okf and part.op == "call" and part.args[0] is glob("functools.partial") and A2.eq(part.args[1][0], A2.entry(rc, "self._metric_fn")) \
-            and any(kk == "**" and root_of(vv) is root_of(A2.at(c, roles["bound"])) for kk, vv in part.args[2])
+            and any(kk == "**" and vv is A2.at(c, roles["bound"]) for kk, vv in part.args[2])
     ctx.ob("R03.3", fqc, mfc[0].node if mfc else None, okf, "the MetricFrame is built from partial(metric, **bound params), the "
            "caller's data and the sample params only", construct="frame construction")
     # transform dispatch
@@ -235,7 +235,7 @@ def r033_generated(ctx):
             meth = got.args[0].args[1].rsplit(".", 1)[1]
             if meth != tv:
                 bad.append(f"transform={tv} calls .{meth}()")
-            passes = any(kk == "**" and root_of(vv) is root_of(tp) for kk, vv in got.args[2])
+            passes = any(kk == "**" and vv is tp for kk, vv in got.args[2])
             if tv in ("difference", "ratio") and not passes:
                 bad.append(f"transform={tv} does not forward the transform parameters")
             if tv in ("group_min", "group_max") and (got.args[1] or got.args[2]):
